@@ -922,7 +922,7 @@ def _cut(s, rnd, sid, how):
         t["steps"].append(step("advance", d=sec(7)))
     else:
         # stop racing with the last stimulus
-        last = t["steps"].pop() if len(t["steps"]) > 2 and t["steps"][-1]["op"] in ("send", "rclose", "connect") else None
+        last = t["steps"].pop() if len(t["steps"]) > 2 and t["steps"][-1]["op"] in ("send", "rclose", "connect", "dialAccept") else None
         subs = ([last] if last else []) + [step("close")]
         if rnd.random() < 0.5:
             subs.reverse()
@@ -1110,4 +1110,29 @@ def fuzz(rnd, n):
             b.add("getPeer", peer="p1").add("listPeers")
         b.close()
         out.append(b.tag("fuzz", st).build())
+    return out
+
+
+def stop_dial_race(n=12):
+    """C10: Close / DeletePeer / Established-on-the-other-connection racing with a dial that succeeds."""
+    out = []
+    for i in range(n):
+        for how in ("close", "delete", "est"):
+            for order in (0, 1):
+                b = Sb("stopdial-%s-%d-%d" % (how, order, i))
+                b.start()
+                if how == "est":
+                    ci = b.connect()
+                    b.open(ci)
+                    subs = [step("dialAccept", peer="p1", conn=b.newconn()), step("send", conn=ci, b=keepalive())]
+                else:
+                    subs = [step("dialAccept", peer="p1", conn=b.newconn()),
+                            step("close") if how == "close" else step("deletePeer", peer="p1")]
+                if order:
+                    subs.reverse()
+                    if subs[0]["op"] != "dialAccept":
+                        pass
+                b.steps.append(multi(*subs))
+                b.adv(1)
+                out.append(b.tag("stop", "dialrace").build())
     return out
